@@ -155,6 +155,21 @@ def _wrap_method(cls, name, kind, snap_self=False, frame=False, argnames=()):
     setattr(cls, name, wrapper)
 
 
+def _snap_grid(tg):
+    import types, numpy as np
+    ns = types.SimpleNamespace()
+    for k in ('freq', 'main_time_unit', 'tz', 'start', 'end', 'T'):
+        if hasattr(tg, k):
+            setattr(ns, k, getattr(tg, k))
+    for k in ('I', 'timepoints', 'dt', 'Dt', 'discount_factors'):
+        if hasattr(tg, k):
+            v = getattr(tg, k)
+            setattr(ns, k, v.copy() if hasattr(v, 'copy') else v)
+    if hasattr(tg, 'I_minor_in_major'):
+        ns.I_minor_in_major = [np.array(x).copy() for x in tg.I_minor_in_major]
+    return ns
+
+
 def _wrap_timegrid(cls):
     orig = cls.__dict__['__init__']
     ORIG[('Timegrid', '__init__')] = orig
@@ -174,7 +189,11 @@ def _wrap_timegrid(cls):
         except BaseException as e:
             ev.exc = e
             raise
-        ev.ret = self
+        # the invariant is about the state at __init__ return: snapshot it (grids are shared and mutated later: set_wacc, re-based I, ...)
+        ev.ret = _snap_grid(self)
+        ref = args.get('ref_timegrid')
+        if ref is not None:
+            ev.args = dict(args, ref_timegrid=_snap_grid(ref))
     __init__.__wrapped__ = orig
     cls.__init__ = __init__
 
